@@ -487,7 +487,7 @@ def main():
     SCRATCH[0] = scratch
     signal.signal(signal.SIGTERM, _on_term)
     signal.signal(signal.SIGINT, _on_term)
-    tag = os.environ.get('VERIF_TAG', '')
+    tag = os.environ.get('VERIF_TAG', '') or ('only-%d' % os.getpid() if args.only else '')
     logdir = os.path.join(VERIF, 'logs', pid, args.tier + ('-' + tag if tag else ''))
     shutil.rmtree(logdir, ignore_errors=True)
     os.makedirs(logdir, exist_ok=True)
